@@ -2,7 +2,7 @@
 (* C04 generation: templates x sites x field values x remaining-length windows (DESIGN.md section 6, C04). *)
 EXTENDS DecoderCursor, Pools
 CONSTANT Window            \* deltas -Window..Window around every boundary
-VARIABLES stage, t, s, v, d, mode
+VARIABLES stage, t, s, v, d, mode, s2, v2
 
 TmplPayloads ==
   << << Rep("SA") >>, << Rep("N") >>, << Rep("D") >>, << Rep("TSi") >>, << Rep("TSr") >>, << Rep("CP") >>, << Rep("EAP") >>,
@@ -21,21 +21,29 @@ Tmpl(i) == PlainMsg(Msg(1, TmplPayloads[i]))
 Deltas == (0 - Window)..Window
 Quick8 == {0, 1, 2, 3, 4, 5, 7, 8, 9, 127, 128, 129, 243, 244, 245, 246, 247, 248, 249, 250, 251, 252, 253, 254, 255}
 
-Init == stage = 0 /\ t = 0 /\ s = << >> /\ v = 0 /\ d = 0 /\ mode = "put"
+Init == stage = 0 /\ t = 0 /\ s = << >> /\ v = 0 /\ d = 0 /\ mode = "put" /\ s2 = << >> /\ v2 = 0
 Next ==
-  \/ stage = 0 /\ stage' = 1 /\ t' \in 1..NT /\ UNCHANGED << s, v, d, mode >>
-  \/ stage = 1 /\ stage' = 2 /\ s' \in MsgSites(Tmpl(t)) /\ UNCHANGED << t, v, d, mode >>
-  \/ stage = 2 /\ stage' = 3 /\ UNCHANGED << t, s >> /\ mode' = "reframe" /\ v' = 0
+  \/ stage = 0 /\ stage' = 1 /\ t' \in 1..NT /\ UNCHANGED << s, v, d, mode, s2, v2 >>
+  \/ stage = 1 /\ stage' = 2 /\ s' \in MsgSites(Tmpl(t)) /\ UNCHANGED << t, v, d, mode, s2, v2 >>
+  \/ stage = 2 /\ stage' = 3 /\ UNCHANGED << t, s >> /\ mode' = "pair"           \* s: a length field; s2: any field inside the extent it measures
+     /\ s.unit > 0 /\ s.w = 2 /\ d' = 0
+     /\ LET b == EncMsgW(Tmpl(t)) IN
+        /\ s2' \in { x \in MsgSites(Tmpl(t)) : x # s /\ x.off > s.off /\ x.off < EndOf(b, s) }
+        /\ v' \in { y \in {4, 7, 8, 9, 10, 11, 12, 13, CurOf(b, s) - 1, CurOf(b, s) + 1} : y >= 0 }
+        /\ v2' \in (IF s2'.w = 1 THEN {0, 255, (CurOf(b, s2') + 1) % 256}
+                     ELSE {0, 65533, 65534, 65535, (CurOf(b, s2') + 1) % 65536, 32768 + (CurOf(b, s2') % 32768)})
+  \/ stage = 2 /\ stage' = 3 /\ UNCHANGED << t, s, s2, v2 >> /\ mode' = "reframe" /\ v' = 0
      /\ d' \in { k \in (0 - 2 * Window - 4)..(2 * Window + 4) : k # 0 /\ Reframable(EncMsgW(Tmpl(t)), s, k) }
-  \/ stage = 2 /\ stage' = 3 /\ UNCHANGED << t, s >> /\ mode' = "put"
+  \/ stage = 2 /\ stage' = 3 /\ UNCHANGED << t, s, s2, v2 >> /\ mode' = "put"
      /\ LET b == EncMsgW(Tmpl(t)) IN
         \/ v' \in SiteValues(b, s) /\ d' = 0
         \/ v' \in (IF s.w = 1 THEN { x \in Quick8 \cup {b[s.off + 1] - 1, b[s.off + 1], b[s.off + 1] + 1} : x \in 0..255 } ELSE SiteValues(b, s))
            /\ d' \in Deltas \ {0}
-  \/ stage = 3 /\ UNCHANGED << stage, t, s, v, d, mode >>
+  \/ stage = 3 /\ UNCHANGED << stage, t, s, v, d, mode, s2, v2 >>
 
 Mutant == LET b0 == EncMsgW(Tmpl(t)) IN
           IF mode = "reframe" THEN Reframe(b0, MsgSites(Tmpl(t)), s, d, 255)
+          ELSE IF mode = "pair" THEN FixHdrLen(PutSite(PutSite(b0, s, v), s2, v2))
           ELSE LET b1 == Resize(PutSite(b0, s, v), d, 0) IN
                IF s.nm = "hdr.len" THEN b1 ELSE FixHdrLen(b1)
 
